@@ -61,7 +61,11 @@ InvAll ==
         /\ nc0 = NucClass(K, b, r)
         /\ FaceLimit(K, nfc0, n, dt)
         /\ NoNegative(K, b, n, g, dxc0, dt, Ratio)
+        /\ (~RLt(rate, RZero) => TotalLimit(K, n, dxc0, dt))
         /\ (rpos = 1 /\ rate = RZero => \A d \in 0..(K - 1) : StepLimitOK(K, b, n, g, d, Ratio, RI(7)))
 (* reachability companions (vacuity): these are *expected* to be violated *)
 NeverCorrected == nfc = nf
+NeverScaledBothFaces == nfc = CorrectPerFace(K, nf, n, dt)
+(* the per-face correction alone (as built before the repair) lets the class that straddles the critical radius go negative *)
+AsBuiltTotalLimit == ~RLt(rate, RZero) => TotalLimit(K, n, DXdt(K, CorrectPerFace(K, nf, n, dt), rate, nc), dt)
 =============================================================================
